@@ -155,6 +155,7 @@ func init() {
 const storagePkg = modPath + "/hooks/storage"
 
 func runC20(c *Ctx) {
+	resendRepersists(c, "C20.e resend-repersists")
 	// reader sets
 	R := map[string]map[string]bool{}
 	add := func(typ string, m map[string]bool) {
@@ -328,6 +329,45 @@ func runC20(c *Ctx) {
 			}
 		}
 	}
+	// (d) every stored row is decoded into a zero record: json.Unmarshal leaves absent (omitempty) fields
+	// untouched, so a target reused across rows hands one row's options to the next
+	nDec := 0
+	for _, b := range backends {
+		for _, name := range []string{"StoredClients", "StoredSubscriptions", "StoredRetainedMessages", "StoredInflightMessages"} {
+			f := c.fn(bpath(b), "(*Hook)."+name)
+			if f == nil {
+				continue
+			}
+			for _, g := range withAnon(f) {
+				for _, ins := range instrs(g) {
+					ci, ok := ins.(ssa.CallInstruction)
+					if !ok || !strings.HasSuffix(cname(ci.Common()), ").UnmarshalBinary") {
+						continue
+					}
+					nDec++
+					var recv ssa.Value
+					if ci.Common().IsInvoke() {
+						recv = ci.Common().Value
+					} else {
+						recv = ci.Common().Args[0]
+					}
+					al, isAlloc := recv.(*ssa.Alloc)
+					fresh := isAlloc && al.Parent() == g
+					why := "the decode target " + describe(recv) + " is not a variable declared in the row callback / loop body"
+					if fresh {
+						// when the call sits in a loop the declaration must be passed again on every iteration
+						_, hit := (&PathQuery{Fn: g, From: ins, Target: isIns(ins), Barrier: func(x ssa.Instruction) bool { return x == ssa.Instruction(al) }}).Find()
+						if hit != nil {
+							fresh = false
+							why = "the decode target is declared outside the loop that decodes the rows"
+						}
+					}
+					c.ob("C20.d fresh-decode-target", fmt.Sprintf("%s %s: each row is decoded into a fresh zero record", b, fname(g)), c.pos(ins.Pos()), fresh, why+": fields a row omits keep the previous row's values")
+				}
+			}
+		}
+	}
+	c.floor("C20.d row decode sites", nDec, 16)
 }
 
 // ---- C22 -----------------------------------------------------------------------------------
